@@ -25,12 +25,14 @@ CONSTANTS
   MaxSteps = 5
   RationalOnly = TRUE
   Twins = FALSE
+  SetOnce = FALSE
   Chain = FALSE
   NeedDt = FALSE
   BindLeaves = TRUE
   EmitOn = TRUE
 INVARIANT InvCovValid
 INVARIANT InvUpdate
+INVARIANT InvRescale
 INVARIANT InvReject
 INVARIANT InvNisNonNeg
 INVARIANT InvSPD
